@@ -336,6 +336,28 @@ func init() {
 		}
 		return tcpTransport("0-1", "")
 	})))
+	// the same answers with the connection closed / gone silent right behind them: the requests that the
+	// client sends while it resets (OPTIONS, TEARDOWN) fail
+	closing := func(f fn, silent bool) fn {
+		return func(s *server, req *base.Request, r *resp, d *delivery) {
+			f(s, req, r, d)
+			if silent {
+				d.silentConn = true
+			} else {
+				d.closeAfter = true
+			}
+		}
+	}
+	swapped := tr(func(q *base.Request) string {
+		if reqTransport(q).Protocol == headers.TransportProtocolTCP {
+			return fmt.Sprintf("RTP/AVP;unicast;client_port=30000-30001;server_port=%d-%d", srvRTPPort, srvRTPPort+1)
+		}
+		return tcpTransport("0-1", "")
+	})
+	reg("transport-proto-swapped-then-close", "transport", "SETUP", true, closing(swapped, false))
+	reg("transport-proto-swapped-then-silent-connection", "transport", "SETUP", true, closing(swapped, true))
+	reg("status-301-location-then-silent-connection", "status", "DESCRIBE", true, closing(redirect(301, 1), true))
+	reg("status-301-location-then-close", "status", "DESCRIBE", true, closing(redirect(301, 1), false))
 	reg("ok-then-request", "inject", "", true, trailing(func(*server, *base.Request, *resp, *delivery) {}))
 	reg("transport-twice", "transport", "SETUP", false, func(s *server, req *base.Request, r *resp, d *delivery) {
 		v, _ := r.get("Transport")
